@@ -1,17 +1,21 @@
 #!/bin/bash
-# tools/run_seeds.sh [tier] — regression test of the machinery: apply every kept seeded change to /repo, run the
-# check(s) recorded as catching it, revert.  Prints one line per seed; exit 1 if some seed is no longer caught.
-# (never run concurrently with anything else that reads /repo)
+# tools/run_seeds.sh [tier] [ids...] — regression test of the machinery: apply every kept seeded change (or the given ids) to a scratch
+# worktree of /repo's HEAD (MUT_REPO, default /tmp/mutrepo-seeds; /repo itself is not touched), run the property's check against it
+# (FGGS_REPO), revert.  Prints one line per seed; exit 1 if some seed is no longer caught.
 cd "$(dirname "$0")/.."
-tier=${1:-quick}
+tier=${1:-quick}; shift
+R=${MUT_REPO:-/tmp/mutrepo-seeds}
+[ -d "$R" ] || git -C /repo worktree add --detach "$R" >/dev/null 2>&1
+git -C "$R" checkout -q -- . && git -C "$R" checkout -q --detach "$(git -C /repo rev-parse HEAD)"
 bad=0
-for d in seeded/*/; do
-  id=$(basename $d); prop=${id%-*}
-  if ! git -C /repo apply --check "$PWD/$d/patch.diff" 2>/dev/null; then echo "$id PATCH-DOES-NOT-APPLY"; bad=1; continue; fi
-  git -C /repo apply "$PWD/$d/patch.diff"
-  out=$(./check $prop --tier $tier 2>&1); rc=$?
-  git -C /repo checkout -- .
-  if [ $rc -eq 1 ] && echo "$out" | grep -q "^VIOLATION property=$prop"; then echo "$id caught ($(echo "$out" | grep '^VIOLATION' | head -1))"
+ids=("$@"); [ ${#ids[@]} -eq 0 ] && ids=($(ls seeded | sort -V))
+for id in "${ids[@]}"; do
+  d=seeded/$id; prop=${id%-*}
+  if ! git -C "$R" apply --check "$PWD/$d/patch.diff" 2>/dev/null; then echo "$id PATCH-DOES-NOT-APPLY"; bad=1; continue; fi
+  git -C "$R" apply "$PWD/$d/patch.diff"
+  out=$(FGGS_REPO=$R ./check $prop --tier $tier 2>&1); rc=$?
+  git -C "$R" checkout -q -- .
+  if [ $rc -eq 1 ] && echo "$out" | grep -q "^VIOLATION property=$prop"; then echo "$id caught"
   else echo "$id MISSED rc=$rc"; bad=1; fi
 done
 exit $bad
